@@ -174,13 +174,13 @@ fn patterns(tier: Tier) -> Vec<(&'static str, Vec<u64>, Vec<u64>)> {
 
 pub fn run(rep: &mut Report) {
     quiet_panics();
-    rep.rule = "cell = (pair of sequence patterns — 17 fixed ones incl. runs that come back later, plus 4 / 24 seeded pairs over a 2-3 letter alphabet —, l, m); per trial the symbols get fresh random labels, hash_set(A) and hash_set(B) run on one real instance (element hasher FNV in half of the trials, the crate's two pass-through hashers in the others), statistic = fraction of equal signature positions; target = exact order-min-hash collision probability from a memoised enumeration of the uniform ranking of all (element, occurrence) pairs (harness oracle, no sketching code); staged z-test; probabilities 0 and 1 are exact. Distinct = cells; non-trivial: 0 < target < 1".into();
+    rep.rule = "cell = (pair of sequence patterns — 17 fixed ones incl. runs that come back later, plus 4 / 10 seeded pairs over a 2-3 letter alphabet —, l, m); per trial the symbols get fresh random labels, hash_set(A) and hash_set(B) run on one real instance (element hasher FNV in half of the trials, the crate's two pass-through hashers in the others), statistic = fraction of equal signature positions; target = exact order-min-hash collision probability from a memoised enumeration of the uniform ranking of all (element, occurrence) pairs (harness oracle, no sketching code); staged z-test; probabilities 0 and 1 are exact. Distinct = cells; non-trivial: 0 < target < 1".into();
     let t1: u64 = rep.tier.pick(6000, 60_000);
     let mut pats = patterns(rep.tier);
     // seeded pairs over a small alphabet (runs, returns, different multiplicities): shapes nobody listed
     let seeded: Vec<(String, Vec<u64>, Vec<u64>)> = {
         let mut r = rng_from(subseed(rep.seed, "C10/seeded-patterns", &[]));
-        (0..rep.tier.pick(4, 24))
+        (0..rep.tier.pick(4, 10))
             .map(|k| {
                 let alpha = r.random_range(2..=3u64);
                 let la = r.random_range(4..=9usize);
